@@ -164,6 +164,7 @@ def discard_case(ch, r, client):
     c.data_to_send()
     c.receive_data((b'' if client else wire.PREFACE) + wire.settings())
     pending = 0
+    local_closed = False
     if client:
         c.send_headers(1, REQ)
         pending += 1
@@ -174,10 +175,18 @@ def discard_case(ch, r, client):
         # we closed the connection ourselves first: our GOAWAY and whatever was queued before it are still unread
         c.close_connection(ch.pick([0, 2]))
         pending += 1
+        local_closed = True
         r.labels.add('discard-after-local-close')
     r.step('discard', 'client' if client else 'server', 'pending calls', pending)
+    lead = b''
+    for _ in range(0 if local_closed else ch.int(0, 3)):
+        # frames that call for an answer, in the same receive_data call ahead of the GOAWAY: their answers
+        # are un-read bytes like any others
+        lead += ch.pick([wire.ping(ch.bytes(8)), wire.settings([(3, ch.int(1, 9))]), wire.settings()])
+    if lead:
+        r.labels.add('discard-answers-queued-in-the-same-call')
     try:
-        evs = c.receive_data(wire.goaway(0, ch.pick([0, 2])))
+        evs = c.receive_data(lead + wire.goaway(0, ch.pick([0, 2])))
     except Exception as e:   # noqa: BLE001
         r.violate('C19:goaway-rejected:%s' % type(e).__name__, repr(e))
         return r
